@@ -390,6 +390,48 @@ theorem C08_invariant (items : List Item) (sched : List CapAns) :
   let h := runSteps_inv items sched
   ⟨h.bytes, h.waiting, h.eos, h.done⟩
 
+/-! ## A stream reset by the peer: `poll_capacity → None` ends the response -/
+
+/-- **C08_closed_stops_pulling**: when a waiting task is told that its stream is gone
+(`poll_capacity` → `None`), the response is over: whatever answers might still arrive, the task
+has finished `closed`, **no further item is pulled from the body** (`items` is untouched, however
+long or endless the body is), nothing more is sent. The loop does not go back to the body. -/
+theorem C08_closed_stops_pulling (s : LoopSt) (rest : List CapAns) (h : s.fin = none) :
+    let s' := rest.foldl step (step s .closed)
+    s'.fin = some .closed ∧ s'.items = s.items ∧ s'.frames = s.frames ∧ s'.cur = s.cur := by
+  have hs : step s .closed = { s with fin := some .closed } := by
+    simp [step, h]
+  simp only [hs]
+  rw [foldl_step_fin _ _ (by simp)]
+  simp
+
+/-- **C08_finished_is_final**: a finished response task never acts again. -/
+theorem C08_finished_is_final (s : LoopSt) (rest : List CapAns) (h : s.fin.isSome) :
+    rest.foldl step s = s :=
+  foldl_step_fin s rest h
+
+/-- **C08_closed_ends_response** (recursive model): with the stream gone at the first capacity
+request for a chunk, the outcome is `closed` with nothing sent and no poll answered, and it does
+not depend on the rest of the body nor on later answers — the remaining body is never looked at. -/
+theorem C08_closed_ends_response (bs : Bytes) (items items' : List Item) (rest rest' : List CapAns)
+    (hne : bs ≠ []) :
+    (sendBody (.chunk bs :: items) (.closed :: rest)).end_ = .closed ∧
+    (sendBody (.chunk bs :: items) (.closed :: rest)).frames = [] ∧
+    (sendBody (.chunk bs :: items) (.closed :: rest)).polls = [] ∧
+    (sendBody (.chunk bs :: items) (.closed :: rest)).frames =
+      (sendBody (.chunk bs :: items') (.closed :: rest')).frames := by
+  have hb : bs.isEmpty = false := by
+    cases bs with
+    | nil => exact absurd rfl hne
+    | cons _ _ => rfl
+  simp [sendBody, sendChunk, hb]
+
+/-- a non-trivial instance: reset after the first grant, 3 chunks never pulled -/
+example :
+    let s := runSteps [.chunk [1, 2], .chunk [3], .chunk [4], .chunk [5]] [.cap 1, .closed, .cap 9, .cap 9]
+    s.fin = some .closed ∧ s.items = [.chunk [3], .chunk [4], .chunk [5]] ∧ wireBytes s.frames = [1] := by
+  decide
+
 /-! ## Several streams on one connection -/
 
 /-- **C08_streams_independent**: under every interleaving of capacity answers, resets and
